@@ -202,6 +202,7 @@ def judge (fs : List (List Char)) : String :=
       match pCase rest with
       | none => "BAD\tcannot read the case"
       | some (lib, prog, obs) =>
+        if !lib.wf then "BAD\tlibrary with duplicate import names (outside the refinement theorem)" else
         let spec := renderResult (Spec.eval prog lib)
         let model := renderResult (Model.resolveModel prog lib)
         if obs != spec then
